@@ -158,6 +158,67 @@ def check_pop_site(ctx, repo, fi, call, discard):
                        f"{fi.qual}: mark() not guarded by head is not None", loc(fi, m.ast))
 
 
+def discard_consumer_model(ctx, repo, rule):
+    """The discard consumer by interpretation: one pass of GeckoUnhandledProtocolHandler.consume over a real peekable
+    queue (model FIFO underneath) on a model connection.  What happens while the consumer yields is scripted: nobody
+    takes the datagram / a capable consumer takes it and another one arrives; the request lock is free or held."""
+    from ..absint import ClassRef, Interp, Native, Obj, PyRaise, Undecided
+
+    class _Stop(Exception):
+        pass
+    cons = repo.method(UNHANDLED, "consume")
+    X = (b"<PACKT>nobody wants this</PACKT>", ("10.0.0.5", 10022))
+    Y = (b"<PACKT>the next one</PACKT>", ("10.0.0.5", 10022))
+    n = 0
+    for locked in (False, True):
+        for taken in (False, True):
+            interp = Interp(repo, max_depth=10)
+            try:
+                q = interp.apply(ClassRef(repo.cls(QUEUE_CLS)), [], {})
+            except (PyRaise, Undecided) as e:
+                raise AnalysisError(f"{QUEUE_CLS}() cannot be constructed by interpretation: {e}")
+            fifo = [X]
+            q.attrs["_queue"] = fifo
+            q.attrs["qsize"] = Native(lambda a, k, f=fifo: len(f), "qsize")
+            q.attrs["empty"] = Native(lambda a, k, f=fifo: not f, "empty")
+            q.attrs["get_nowait"] = Native(lambda a, k, f=fifo: f.pop(0), "get_nowait")
+            lock = Obj(None, {"locked": Native(lambda a, k, v=locked: v, "locked")}, name="request-lock")
+            proto = Obj(None, {"queue": q, "Lock": lock, "_lock": lock, "isopen": True}, name="protocol")
+            sleeps = [0]
+
+            def hook(it, node, callee, args, kwargs, q=q, fifo=fifo, taken=taken, sleeps=sleeps):
+                if getattr(callee, "name", "") == "asyncio.sleep" or (isinstance(getattr(node, "func", None), ast.Attribute) and node.func.attr in ("sleep", "config_sleep")):
+                    sleeps[0] += 1
+                    if sleeps[0] == 1 and taken:
+                        it.call(repo.method(QUEUE_CLS, "pop"), q, [])   # its consumer takes X while the discard consumer yields ...
+                        fifo.append(Y)                                   # ... and the next datagram arrives
+                    if sleeps[0] >= 2:
+                        raise _Stop()
+                    return None
+                return NotImplemented
+            interp.call_hook = hook
+            try:
+                h = interp.apply(ClassRef(repo.cls(UNHANDLED)), [], {})
+                interp.steps = 0
+                interp.call(cons, h, [proto])
+                left = "returned"
+            except _Stop:
+                left = list(fifo)
+            except PyRaise as e:
+                left = f"raises {e.what}"
+            except Undecided as e:
+                raise AnalysisError(f"{cons.qual}: cannot interpret: {e}")
+            want = [Y] if taken else []
+            n += 1
+            ctx.ob(rule, f"{cons.qual}::lock-{'held' if locked else 'free'}::{'taken-meanwhile' if taken else 'unclaimed'}", left == want,
+                   f"{cons.qual}, request lock {'held' if locked else 'free'}, head datagram {'taken by its consumer while the discard consumer yields (and another arrives)' if taken else 'claimed by nobody'}: "
+                   f"after one mark-and-wait pass the queue holds {left}, expected {want} - "
+                   + ("an unclaimed datagram must leave the head after one polling interval in every state of the connection, or it blocks every later datagram (and a stale reply is served to the next request of its verb)"
+                      if not taken else "only the datagram that was marked may be discarded"), cons.loc,
+                   sample={"rule": rule, "locked": locked, "taken": taken, "queue_after": str(left)})
+    ctx.floor(rule, "discard-consumer passes interpreted", n, 4)
+
+
 def queue_model(ctx, repo, rule):
     """The peekable queue by interpretation (witness scenarios): an AsyncPeekableQueue built by its constructor over a
     model FIFO; datagrams are (data, sender) tuples, and a retransmission is an EQUAL but distinct tuple.
@@ -225,6 +286,8 @@ def queue_model(ctx, repo, rule):
 def check_queue_class(ctx, repo):
     c = repo.cls(QUEUE_CLS)
     queue_model(ctx, repo, "R3")
+    ctx.rule("R7", "head-of-line: one pass of the discard consumer, interpreted on a real peekable queue, removes a datagram nobody claimed after one mark-and-wait interval whether the request lock is free or held, and removes nothing when the marked datagram was taken meanwhile")
+    discard_consumer_model(ctx, repo, "R7")
     # the mark flag has no other writer in the package
     writers = []
     for fi in repo.all_functions():
